@@ -56,6 +56,10 @@ def main():
             nontriv.add(json.dumps(h))
         if len(samples) < 3 and i >= ncat and len(h) >= 4:
             samples.append({"history": h, "outcomes": r["ops"], "probes": r["probes"]})
+    # the statements the translator cut out of the source, run by CPython with scripted stand-ins, against their translation
+    # interpreted inside Coq (lib/storage_corr.py)
+    import storage_corr
+    R.coverage["source_fragment_cases"] = storage_corr.fragment_correspondence(R, ['flatten'], 600 if R.thorough else 60)
     if not proved:
         R.violation("proof", "proof obligations of props/C12.v no longer check: " + str(R.broken_proof)[-800:],
                     {"theorem_file": "coq/props/C12.v", "log": R.broken_proof}, no_input=not any(v["kind"] == "property" for v in R.violations))
